@@ -1,6 +1,6 @@
 """Per-property configuration and the generic decision procedure."""
 import os, re, shutil, time
-from checklib import (WORK, BUILD, log, build_all, scan_forbidden, proof_obligations, run_family,
+from checklib import (coqchk, WORK, BUILD, log, build_all, scan_forbidden, proof_obligations, run_family,
                       load_known, match_known, write_replay, write_replay_text, write_evidence,
                       sample_of, TRUSTED_BASE, read_replay)
 
@@ -177,10 +177,12 @@ PROPS = {
         technique="Coq proof (backward footer scan: finds the last complete footer and ignores any tail) + crash-image enumeration on recorded traces, same bytes to model and code",
     ),
     "C19": dict(
-        runs=[("codec", "", "codecrun", 200, 3000, 0), ("coll", "flat", "flatrun", 160, 3000, 20)],
+        runs=[("codec", "", "codecrun", 200, 3000, 0), ("coll", "flat", "flatrun", 160, 3000, 20),
+              ("crash", "", "crashrun", 160, 6000, 0)],
         corr={"model:codec-word", "model:guard", "model:load-segment", "model:segment-layout", "model:roundtrip",
-              "driver-error", "harness-error"} | STRUCT | READS, corr_held=False,
-        spec={"spec:limits", "spec:gets", "spec:iter"}, spec_held=False,
+              "model:footer-choice", "model:open-result", "driver-error", "harness-error"} | STRUCT | READS, corr_held=False,
+        spec={"spec:limits", "spec:gets", "spec:iter", "spec:open-failed", "spec:open-panic", "spec:not-a-prefix",
+              "spec:lost-synced-round"}, spec_held=False,
         rule="function level: 400 (op,keyLen,valLen) words per run at boundary lengths 0,1,2^16,2^24-1,2^24,2^24+1,2^28-1,"
              "2^28,2^28+1 and random, 200 page alignments; API level: a batch with a 2^24-byte key (rejected with "
              "ErrKeyTooLarge) between accepted operations, and a 2^24-1 byte key; byte level: segments with adversarial "
@@ -351,13 +353,26 @@ def run_c17(pid, tier, seed, replay):
         unjustified = [ln for ln in report.splitlines() if " JNone" in ln]
         out_lines, rc_final, nviol = [], 0, 0
         race_out = ""
-        if problems or tier == "thorough":
-            # failing-input search (never the decision): the concurrent workloads under the race detector
-            env = dict(GOENV, CGO_ENABLED="1")
-            import shutil as _sh
-            _sh.copyfile("/repo/go.sum", os.path.join(VERIF, "harness", "racework", "go.sum"))
-            rcr, race_out = sh(["go", "test", "-race", "-count=1", "-timeout", "10m", "."],
-                               cwd=os.path.join(VERIF, "harness", "racework"), env=env, timeout=1200)
+        # The table covers the lock-protected fields of two structs.  Everything else that permitted
+        # concurrent use touches (published slices, the deferred-sort ticket protocol, segment
+        # buffers) is exercised by concurrent workloads under Go's race detector on every run: a
+        # reported race is a real race in the code under test (the detector has no false positives),
+        # so it is a violation with the report as replay; silence there proves nothing and is not
+        # counted as a discharged obligation.
+        env = dict(GOENV, CGO_ENABLED="1")
+        import shutil as _sh
+        _sh.copyfile("/repo/go.sum", os.path.join(VERIF, "harness", "racework", "go.sum"))
+        reps = "3" if tier == "thorough" else "1"
+        rcr, race_out = sh(["go", "test", "-race", "-count=" + reps, "-timeout", "15m", "."],
+                           cwd=os.path.join(VERIF, "harness", "racework"), env=env, timeout=1800)
+        if "DATA RACE" in race_out and not problems:
+            nviol = 1
+            rc_final = 1
+            text = "; property C17\n; the race detector reports a data race under permitted concurrent use (harness/racework, go test -race)\n"
+            path = write_replay_text(pid, "race", text + race_out[:8000])
+            out_lines.append("VIOLATION property=%s replay=%s" % (pid, path))
+        elif rcr != 0 and "DATA RACE" not in race_out and not problems:
+            problems.append("the concurrent workload (harness/racework) fails without a race report:\n" + race_out[-1500:])
         if problems:
             nviol = len(problems)
             rc_final = 1
@@ -476,6 +491,11 @@ def _run(pid, spec, tier, seed, replay, workdir, known, t0):
         if not po["ok"]:
             problems.append("theorems of %s not all accepted (discharged %d of %d; axioms %s):\n%s" %
                             (pid, po["discharged"], po["obligations"], po.get("bad_axioms"), po["output"][-1500:]))
+    chk_summary = None
+    if coq_ok and tier == "thorough" and not replay:
+        ok_chk, chk_summary = coqchk(pid)
+        if not ok_chk:
+            problems.append("coqchk does not accept the compiled development without assumptions: " + chk_summary)
     go_ok = res.get("go", (True, ""))[0]
     all_cases, hist, herrs = [], {}, []
     if not go_ok:
@@ -552,6 +572,7 @@ def _run(pid, spec, tier, seed, replay, workdir, known, t0):
         label_histogram=hist, skipped=sum(1 for c in all_cases if c["verdict"] == "SKIP"),
         known_findings_seen=sorted(seen_known),
         correspondence_breaks=len(corr_breaks), spec_violations=len(viol),
+        coqchk=chk_summary or "not run in this tier (thorough tier runs coqchk -silent -o over the property's libraries)",
         explanation="theorems about the Gallina model accepted by the kernel; the model is tied to /repo's working tree by "
                     "running the extracted model and the implementation in lock step on the same labels and comparing "
                     "every section, read and gauge after every label",
